@@ -145,7 +145,10 @@ func c18PanicSources(c *Ctx, rule string) {
 					return true
 				}
 				set := ts.Of(f, y.X, 0)
-				if nilGuarded(f, y) {
+				if flt, ok := filteredBefore(f, y, parent); ok && (set.Top || len(flt.Types) < len(set.Types)) {
+					set = flt
+				}
+				if nilGuarded(f, y) || nilReturnedBefore(f, y, parent) {
 					set = set.without("nil")
 				}
 				if !set.Top && len(set.Types) == 1 && set.Types[want] {
@@ -682,7 +685,7 @@ func sideValidateKind(c *Ctx) (bool, string) {
 		loc, _ := g.Locate(ta)
 		if !dominatedByReturnGuard(f, g, loc, func(cond ast.Expr) bool {
 			s := exprKey(cond)
-			return strings.HasPrefix(s, "reflect.TypeOf(val).Kind()!=reflect.Int64")
+			return strings.HasPrefix(s, "reflect.TypeOf("+paramName(f, 0)+").Kind()!=reflect.Int64")
 		}) {
 			okAll = false
 		}
@@ -700,7 +703,7 @@ func sideValidateKind(c *Ctx) (bool, string) {
 			loc, _ := g.Locate(ta)
 			if !dominatedByReturnGuard(f, g, loc, func(cond ast.Expr) bool {
 				be, ok := ast.Unparen(cond).(*ast.BinaryExpr)
-				if !ok || be.Op != token.NEQ || !strings.HasPrefix(exprKey(be.X), "reflect.TypeOf(val).Kind()") {
+				if !ok || be.Op != token.NEQ || !strings.HasPrefix(exprKey(be.X), "reflect.TypeOf("+paramName(f, 0)+").Kind()") {
 					return false
 				}
 				_, isLocal := ast.Unparen(be.Y).(*ast.Ident)
@@ -1117,7 +1120,6 @@ func excBroken(c *Ctx, rule, key string, pos token.Pos, kind, reason, why string
 	c.Fail(rule, key, pos, "%s whose reviewed justification no longer holds: %s — %s", kind, reason, why)
 }
 
-
 // minLenOf: a lower bound of an integer expression built from constants, len(…) calls and +.
 func minLenOf(f *Func, e ast.Expr) (int64, bool) {
 	e = ast.Unparen(f.stripConv(e))
@@ -1139,4 +1141,185 @@ func minLenOf(f *Func, e ast.Expr) (int64, bool) {
 		}
 	}
 	return 0, false
+}
+
+// earlierSiblings calls fn for every statement that lexically precedes n in a statement list enclosing it
+// (an earlier sibling of n or of one of its ancestors), nearest first; such a statement has run to its end
+// when n is reached (labels and goto do not occur in mkdb). Lone blocks are looked into.
+func earlierSiblings(n ast.Node, parent map[ast.Node]ast.Node, fn func(s ast.Stmt) bool) {
+	for cur := n; cur != nil; cur = parent[cur] {
+		var list []ast.Stmt
+		switch p := parent[cur].(type) {
+		case *ast.BlockStmt:
+			list = p.List
+		case *ast.CaseClause:
+			list = p.Body
+		case *ast.FuncLit:
+			return
+		default:
+			continue
+		}
+		idx := -1
+		for i, s := range list {
+			if ast.Node(s) == cur {
+				idx = i
+			}
+		}
+		for i := idx - 1; i >= 0; i-- {
+			s := list[i]
+			for {
+				b, ok := s.(*ast.BlockStmt)
+				if !ok || len(b.List) != 1 {
+					break
+				}
+				s = b.List[0]
+			}
+			if !fn(s) {
+				return
+			}
+		}
+	}
+}
+
+func endsInReturn(list []ast.Stmt) bool {
+	if len(list) == 0 {
+		return false
+	}
+	_, ok := list[len(list)-1].(*ast.ReturnStmt)
+	return ok
+}
+
+// assignedBetween: is the variable x (an identifier) assigned at a position in [from, to)?
+func assignedBetween(f *Func, x ast.Expr, from, to token.Pos) bool {
+	id, ok := ast.Unparen(x).(*ast.Ident)
+	if !ok {
+		return true
+	}
+	obj := f.ObjOf(id)
+	hit := false
+	ast.Inspect(f.Decl.Body, func(n ast.Node) bool {
+		switch y := n.(type) {
+		case *ast.AssignStmt:
+			if y.Pos() >= from && y.Pos() < to {
+				for _, l := range y.Lhs {
+					if li, ok := ast.Unparen(l).(*ast.Ident); ok && f.ObjOf(li) == obj {
+						hit = true
+					}
+				}
+			}
+		case *ast.UnaryExpr:
+			if y.Op == token.AND {
+				if li, ok := ast.Unparen(y.X).(*ast.Ident); ok && f.ObjOf(li) == obj {
+					hit = true
+				}
+			}
+		case *ast.RangeStmt:
+			for _, l := range []ast.Expr{y.Key, y.Value} {
+				if li, ok := l.(*ast.Ident); ok && y.Pos() >= from && y.Pos() < to && f.ObjOf(li) == obj {
+					hit = true
+				}
+			}
+		}
+		return true
+	})
+	return hit
+}
+
+// filteredBefore: the asserted variable went through a type switch earlier on the way (`switch x.(type)` with a
+// default that returns): past it, x holds one of the types named by the arms that do not return.
+func filteredBefore(f *Func, ta *ast.TypeAssertExpr, parent map[ast.Node]ast.Node) (TS, bool) {
+	if _, ok := ast.Unparen(ta.X).(*ast.Ident); !ok {
+		return TS{}, false
+	}
+	var out TS
+	found := false
+	earlierSiblings(ta, parent, func(s ast.Stmt) bool {
+		sw, ok := s.(*ast.TypeSwitchStmt)
+		if !ok || sw.Init != nil {
+			return true
+		}
+		var operand ast.Expr
+		switch a := sw.Assign.(type) {
+		case *ast.ExprStmt:
+			if t, ok := ast.Unparen(a.X).(*ast.TypeAssertExpr); ok {
+				operand = t.X
+			}
+		case *ast.AssignStmt:
+			if len(a.Rhs) == 1 {
+				if t, ok := ast.Unparen(a.Rhs[0]).(*ast.TypeAssertExpr); ok {
+					operand = t.X
+				}
+			}
+		}
+		if operand == nil || exprKey(ast.Unparen(operand)) != exprKey(ast.Unparen(ta.X)) {
+			return true
+		}
+		if assignedBetween(f, ta.X, sw.Pos(), ta.Pos()) {
+			return false
+		}
+		set := tsOf()
+		hasDefault := false
+		for _, cl := range sw.Body.List {
+			cc := cl.(*ast.CaseClause)
+			if cc.List == nil {
+				hasDefault = true
+				if !endsInReturn(cc.Body) {
+					return false
+				}
+				continue
+			}
+			if endsInReturn(cc.Body) {
+				continue
+			}
+			for _, e := range cc.List {
+				if id, ok := e.(*ast.Ident); ok && id.Name == "nil" {
+					set.Types["nil"] = true
+					continue
+				}
+				t := f.TypeOf(e)
+				if t == nil || isInterface(t) {
+					return false
+				}
+				set.Types[typeName(t)] = true
+			}
+		}
+		if !hasDefault {
+			return false
+		}
+		out, found = set, true
+		return false
+	})
+	return out, found
+}
+
+// nilReturnedBefore: an earlier `if x == nil { … return }` (or `x == nil || …`) on the way excludes nil.
+func nilReturnedBefore(f *Func, ta *ast.TypeAssertExpr, parent map[ast.Node]ast.Node) bool {
+	if _, ok := ast.Unparen(ta.X).(*ast.Ident); !ok {
+		return false
+	}
+	want := exprKey(ast.Unparen(ta.X)) + "==nil"
+	found := false
+	earlierSiblings(ta, parent, func(s ast.Stmt) bool {
+		ifs, ok := s.(*ast.IfStmt)
+		if !ok || ifs.Init != nil || !endsInReturn(ifs.Body.List) {
+			return true
+		}
+		var disj func(e ast.Expr) bool
+		disj = func(e ast.Expr) bool {
+			e = ast.Unparen(e)
+			if exprKey(e) == want {
+				return true
+			}
+			if be, ok := e.(*ast.BinaryExpr); ok && be.Op == token.LOR {
+				return disj(be.X) || disj(be.Y)
+			}
+			return false
+		}
+		if disj(ifs.Cond) && !assignedBetween(f, ta.X, ifs.Pos(), ta.Pos()) {
+			found = true
+			return false
+		}
+		return true
+	})
+	return found
 }
